@@ -1868,11 +1868,13 @@ class MindsDBParser(Parser):
 
     @_('QUOTE_STRING')
     def quote_string(self, p):
-        return p[0].strip('\'')
+        value = p[0].replace('\\"', '"').replace("\\'", "'").replace("''", "'")
+        return value.strip('\'')
 
     @_('DQUOTE_STRING')
     def dquote_string(self, p):
-        return p[0].strip('\"')
+        value = p[0].replace('\\"', '"').replace("\\'", "'")
+        return value.strip('\"')
 
     # for raw query
 
@@ -1896,13 +1898,21 @@ class MindsDBParser(Parser):
     def expr(self, p):
         return p.variable
 
+    @staticmethod
+    def variable_name(text):
+        # source text of a VARIABLE / SYSTEM_VARIABLE token -> name (sigil and quotes removed)
+        value = text.lstrip('@')
+        if value[0] in ('"', "'", '`'):
+            value = value.strip(value[0])
+        return value
+
     @_('SYSTEM_VARIABLE')
     def variable(self, p):
-        return Variable(value=p.SYSTEM_VARIABLE, is_system_var=True)
+        return Variable(value=self.variable_name(p.SYSTEM_VARIABLE), is_system_var=True)
 
     @_('VARIABLE')
     def variable(self, p):
-        return Variable(value=p.VARIABLE)
+        return Variable(value=self.variable_name(p.VARIABLE))
 
     @_(
         'OR REPLACE',
